@@ -983,6 +983,246 @@ MUTANTS = [
       (RT, """                        os.waitpid(self._pid, 0)
                     except OSError:""", """                        os.waitpid(self._pid, 0)
                     except InterruptedError:""")),
+    # D11 (fixed in /repo): the depth is installed after the initializer ran
+    M("depth-installed-after-initializer-D11", ["C19"], ["R-DEPTH"],
+      (PE, """    global _CURRENT_DEPTH
+    _CURRENT_DEPTH = current_depth
+
+    if initializer is not None:
+        try:
+            initializer(*initargs)
+        except BaseException:
+            LOGGER.critical("Exception in initializer:", exc_info=True)
+            # The parent will notice that the process stopped and
+            # mark the pool broken
+            return
+""", """    global _CURRENT_DEPTH
+    if initializer is not None:
+        try:
+            initializer(*initargs)
+        except BaseException:
+            LOGGER.critical("Exception in initializer:", exc_info=True)
+            # The parent will notice that the process stopped and
+            # mark the pool broken
+            return
+    _CURRENT_DEPTH = current_depth
+""")),
+    M("shutdown-snapshot-before-flag", ["C05"], ["R-SHUTDOWN-API"],
+      (PE, """        self._flags.flag_as_shutting_down(kill_workers)
+        executor_manager_thread = self._executor_manager_thread
+        executor_manager_thread_wakeup = self._executor_manager_thread_wakeup
+""", """        executor_manager_thread = self._executor_manager_thread
+        executor_manager_thread_wakeup = self._executor_manager_thread_wakeup
+        self._flags.flag_as_shutting_down(kill_workers)
+""")),
+    M("pickler-restored-before-result-is-sent", ["C15"], ["R-PICKLER-NAME"],
+      (PE, """        set_loky_pickler(self.loky_pickler)
+        return self.fn(*self.args, **self.kwargs)""", """        previous = get_loky_pickler_name()
+        set_loky_pickler(self.loky_pickler)
+        try:
+            return self.fn(*self.args, **self.kwargs)
+        finally:
+            set_loky_pickler(previous)""")),
+    M("pickler-reset-in-worker-before-sendback", ["C15"], ["R-PICKLER-NAME"],
+      (PE, """            r = call_item()
+        except BaseException as e:""", """            r = call_item()
+            set_loky_pickler()
+        except BaseException as e:""")),
+    # ------------------------------------- kill tree: polarity / totality
+    M("killtree-dispatch-inverted", ["C02", "C06", "C20"], ["R-KILL-TREE"],
+      (UT, """    if use_psutil and psutil is not None:""", """    if use_psutil and psutil is None:""")),
+    M("killtree-kill-sends-nothing", ["C06"], ["R-KILL-TREE"],
+      (UT, """    try:
+        os.kill(pid, kill_signal)
+    except OSError as e:""", """    try:
+        os.getpgid(pid)
+    except OSError as e:""")),
+    M("killtree-esrch-inverted", ["C06"], ["R-KILL-TREE"],
+      (UT, """        if e.errno != errno.ESRCH:""", """        if e.errno == errno.ESRCH:""")),
+    M("killtree-pgrep-no-children-raises", ["C06"], ["R-KILL-TREE"],
+      (UT, """        if e.returncode == 1:
+            children_pids = \"\"
+        else:
+            raise  # pragma: no cover""", """        if e.returncode != 1:
+            children_pids = \"\"
+        else:
+            raise  # pragma: no cover""")),
+    M("killtree-descendant-handler-narrow", ["C06"], ["R-KILL-TREE"],
+      (UT, """            descendant.kill()
+        except psutil.NoSuchProcess:""", """            descendant.kill()
+        except psutil.AccessDenied:""")),
+    M("killtree-fallback-handler-narrow", ["C06"], ["R-KILL-TREE"],
+      (UT, """    except Exception:  # pragma: no cover
+        details = traceback.format_exc()""", """    except OSError:  # pragma: no cover
+        details = traceback.format_exc()""")),
+    M("killtree-fallback-does-not-kill-worker", ["C06"], ["R-KILL-TREE"],
+      (UT, """        # which in turns calls the Win32 API function TerminateProcess().
+        process.kill()
+    process.join()""", """        # which in turns calls the Win32 API function TerminateProcess().
+    process.join()""")),
+    # ------------------------------------- Event probes
+    M("event-is-set-consumes-flag", ["C14"], ["R-EVENT-LOCKED"],
+      (SY, """    def is_set(self):
+        with self._cond:
+            if self._flag.acquire(False):
+                self._flag.release()
+                return True""", """    def is_set(self):
+        with self._cond:
+            if self._flag.acquire(False):
+                return True""")),
+    M("event-is-set-inverted", ["C14"], ["R-EVENT-LOCKED"],
+      (SY, """    def is_set(self):
+        with self._cond:
+            if self._flag.acquire(False):""", """    def is_set(self):
+        with self._cond:
+            if not self._flag.acquire(False):""")),
+    M("event-wait-first-probe-consumes", ["C14"], ["R-EVENT-LOCKED"],
+      (SY, """            if self._flag.acquire(False):
+                self._flag.release()
+            else:
+                self._cond.wait(timeout)""", """            if self._flag.acquire(False):
+                pass
+            else:
+                self._cond.wait(timeout)""")),
+    M("event-wait-first-probe-inverted", ["C14"], ["R-EVENT-LOCKED"],
+      (SY, """            if self._flag.acquire(False):
+                self._flag.release()
+            else:
+                self._cond.wait(timeout)""", """            if not self._flag.acquire(False):
+                self._flag.release()
+            else:
+                self._cond.wait(timeout)""")),
+    # ------------------------------------- feeder loop
+    M("feeder-drops-popped-object", ["C01", "C04"], ["R-FEEDER"],
+      (QU, """                            wacquire()
+                            try:
+                                send_bytes(obj_)
+                            finally:
+                                wrelease()""", """                            wacquire()
+                            try:
+                                pass
+                            finally:
+                                wrelease()""")),
+    M("feeder-sentinel-test-inverted", ["C01", "C05"], ["R-FEEDER"],
+      (QU, """                        if obj is sentinel:""", """                        if obj is not sentinel:""")),
+    M("feeder-busy-loop", ["C01"], ["R-FEEDER"],
+      (QU, """                    if not buffer:
+                        nwait()""", """                    if buffer:
+                        nwait()""")),
+    M("feeder-thread-not-started", ["C01"], ["R-FEEDER"],
+      (QU, """        util.debug("doing self._thread.start()")
+        self._thread.start()""", """        util.debug("doing self._thread.start()")""")),
+    # ------------------------------------- Empty / Full
+    M("mgr-total-work-ids-empty-unhandled", ["C01", "C02"], ["R-MGR-TOTAL"],
+      (PE, """                work_id = self.work_ids_queue.get(block=False)
+            except queue.Empty:""", """                work_id = self.work_ids_queue.get(block=False)
+            except queue.Full:""")),
+    M("mgr-total-sentinel-post-full-unhandled", ["C05"], ["R-MGR-TOTAL"],
+      (PE, """                    self.call_queue.put_nowait(None)
+                    n_sentinels_sent += 1
+                except queue.Full as e:""", """                    self.call_queue.put_nowait(None)
+                    n_sentinels_sent += 1
+                except OSError as e:""")),
+    M("mgr-total-worker-idle-timeout-unhandled", ["C01"], ["R-MGR-TOTAL"],
+      (PE, """        except queue.Empty:
+            mp.util.info(f"Shutting down worker after timeout {timeout:0.3f}s")""", """        except TimeoutError:
+            mp.util.info(f"Shutting down worker after timeout {timeout:0.3f}s")""")),
+    M("ship-install-gate-inverted", ["C12"], ["R-TRACKER-SHIP"],
+      (SP, """    if "tracker_args" in data:
+        from .resource_tracker import _resource_tracker""", """    if "tracker_args" not in data:
+        from .resource_tracker import _resource_tracker""")),
+    M("ship-fd-written-only-on-win32", ["C12"], ["R-TRACKER-SHIP"],
+      (SP, """    if sys.platform == "win32":
+        d["tracker_args"]["fh"] = msvcrt.get_osfhandle(_resource_tracker._fd)
+    else:
+        d["tracker_args"]["fd"] = _resource_tracker._fd""", """    if sys.platform == "win32":
+        d["tracker_args"]["fh"] = msvcrt.get_osfhandle(_resource_tracker._fd)""")),
+    # ------------------------------------------------------- R-SCN-* (polarity)
+    M("scn-wakeup-inverted", ["C01", "C02", "C05"], ["R-SCN-WAKEPRIM"],
+      (PE, """    def wakeup(self):
+        if not self._closed:""", """    def wakeup(self):
+        if self._closed:""")),
+    M("scn-clear-inverted-poll", ["C01", "C05"], ["R-SCN-WAKEPRIM"],
+      (PE, """            while self._reader.poll():""", """            while not self._reader.poll():""")),
+    M("scn-close-does-not-record", ["C01", "C20"], ["R-SCN-WAKEPRIM"],
+      (PE, """        if not self._closed:
+            self._closed = True
+            self._writer.close()""", """        if not self._closed:
+            self._writer.close()""")),
+    M("scn-wakeup-born-closed", ["C01"], ["R-SCN-WAKEPRIM"],
+      (PE, """        self._closed = False
+        self._reader, self._writer""", """        self._closed = True
+        self._reader, self._writer""")),
+    M("scn-worker-leave-test-inverted", ["C01", "C05", "C07"], ["R-SCN-WORKER"],
+      (PE, """        if call_item is None:
+            # Notify queue management thread about worker shutdown""", """        if call_item is not None:
+            # Notify queue management thread about worker shutdown""")),
+    M("scn-worker-timeout-keeps-stale-item", ["C07"], ["R-SCN-WORKER"],
+      (PE, """                processes_management_lock.release()
+                call_item = None""", """                processes_management_lock.release()""")),
+    M("scn-worker-trylock-inverted", ["C07"], ["R-SCN-WORKER"],
+      (PE, """            if processes_management_lock.acquire(block=False):
+                processes_management_lock.release()
+                call_item = None
+            else:
+                mp.util.info("Could not acquire processes_management_lock")
+                continue""", """            if not processes_management_lock.acquire(block=False):
+                call_item = None
+            else:
+                processes_management_lock.release()
+                mp.util.info("Could not acquire processes_management_lock")
+                continue""")),
+    M("scn-worker-no-nested-exit-hook", ["C01"], ["R-SCN-WORKER"],
+      (PE, """            _python_exit()
+
+            if is_clean:""", """            if is_clean:""")),
+    M("scn-manager-result-test-inverted", ["C01", "C02"], ["R-SCN-MANAGER"],
+      (PE, """            if result_item is not None:
+                self.process_result_item(result_item)""", """            if result_item is None:
+                self.process_result_item(result_item)""")),
+    M("scn-manager-shutting-down-inverted", ["C01", "C05"], ["R-SCN-MANAGER"],
+      (PE, """            if self.is_shutting_down():
+                self.flag_executor_shutting_down()""", """            if not self.is_shutting_down():
+                self.flag_executor_shutting_down()""")),
+    M("scn-manager-exits-with-pending", ["C05"], ["R-SCN-MANAGER"],
+      (PE, """                if not self.pending_work_items:
+                    self.join_executor_internals()
+                    return""", """                if self.pending_work_items:
+                    self.join_executor_internals()
+                    return""")),
+    M("scn-terminate-broken-loop-inverted", ["C01", "C02"], ["R-SCN-MANAGER"],
+      (PE, """        while self.pending_work_items:
+            try:
+                _, work_item = self.pending_work_items.popitem()""", """        while not self.pending_work_items:
+            try:
+                _, work_item = self.pending_work_items.popitem()""")),
+    M("scn-kill-path-loop-inverted", ["C06"], ["R-SCN-MANAGER"],
+      (PE, """            while self.pending_work_items:
+                _, work_item = self.pending_work_items.popitem()
+                try:""", """            while not self.pending_work_items:
+                _, work_item = self.pending_work_items.popitem()
+                try:""")),
+    M("scn-result-pid-test-inverted", ["C01", "C07"], ["R-SCN-RESULT"],
+      (PE, """        if isinstance(result_item, int):
+            # Clean shutdown of a worker using its PID""", """        if not isinstance(result_item, int):
+            # Clean shutdown of a worker using its PID""")),
+    M("scn-result-running-id-kept", ["C01", "C03", "C07"], ["R-SCN-RESULT"],
+      (PE, """                    work_item.future.set_result(result_item.result)
+                self.running_work_items.remove(result_item.work_id)""", """                    work_item.future.set_result(result_item.result)""")),
+    M("scn-feeder-hook-inverted", ["C01", "C04"], ["R-SCN-FEEDER"],
+      (PE, """    def _on_queue_feeder_error(self, e, obj):
+        if isinstance(obj, _CallItem):""", """    def _on_queue_feeder_error(self, e, obj):
+        if not isinstance(obj, _CallItem):""")),
+    M("scn-start-manager-inverted", ["C01", "C05"], ["R-SCN-START"],
+      (PE, """        if self._executor_manager_thread is None:
+            mp.util.debug("_start_executor_manager_thread called")""", """        if self._executor_manager_thread is not None:
+            mp.util.debug("_start_executor_manager_thread called")""")),
+    M("scn-atexit-registration-inverted", ["C05"], ["R-SCN-START"],
+      (PE, """            if process_pool_executor_at_exit is None:""", """            if process_pool_executor_at_exit is not None:""")),
+    M("scn-submit-global-shutdown-inverted", ["C01", "C02", "C05"], ["R-SCN-START"],
+      (PE, """            if _global_shutdown:
+                raise RuntimeError(""", """            if not _global_shutdown:
+                raise RuntimeError(""")),
     # --------------------------------------------------------------- R-RT-LOOP
     M("rt-barrier-except-exception", ["C11", "C12"], ["R-RT-LOOP"],
       (RT, """                except BaseException:
